@@ -34,6 +34,8 @@ pub struct RunConfig {
 }
 
 const WATCHDOG: Duration = Duration::from_secs(120);
+/// wall-clock bound per shrinking stage
+const SHRINK_WALL_S: u64 = 150;
 
 #[derive(Default)]
 struct Stats {
@@ -268,6 +270,9 @@ fn run_scenario(
       handles.push(s.spawn(move || {
         let stats = Mutex::new(Stats::default());
         let failed_here = AtomicBool::new(false);
+        // shrinking is bounded by wall time as well (slow, live scenarios): after the
+        // deadline every candidate counts as passing, so the reduction stops
+        let shrink_deadline: Mutex<Option<Instant>> = Mutex::new(None);
         let mut config = Config::default();
         config.cases = n as u32;
         config.failure_persistence = None;
@@ -285,6 +290,11 @@ fn run_scenario(
         let result = runner.run(&strategy, |input: Vec<u8>| {
           if shared.stop.load(Ordering::Relaxed) && !failed_here.load(Ordering::Relaxed) {
             return Ok(());
+          }
+          if let Some(d) = *shrink_deadline.lock().unwrap() {
+            if Instant::now() > d {
+              return Ok(());
+            }
           }
           {
             let mut slot = slots[shard].lock().unwrap();
@@ -329,6 +339,10 @@ fn run_scenario(
             }
             failed_here.store(true, Ordering::Relaxed);
             shared.stop.store(true, Ordering::Relaxed);
+            shrink_deadline
+              .lock()
+              .unwrap()
+              .get_or_insert_with(|| Instant::now() + Duration::from_secs(SHRINK_WALL_S));
             return Err(TestCaseError::fail(sig));
           }
           Ok(())
@@ -726,9 +740,13 @@ pub fn run_property(prop: &Property, cfg: &RunConfig) -> i32 {
     // second-stage reduction, keeping the clause id fixed
     let clause = clause_of(&f.outcome).unwrap();
     let known_sigs: Vec<String> = active_known.iter().map(|k| k.sig.clone()).collect();
+    let stage2_deadline = Instant::now() + Duration::from_secs(SHRINK_WALL_S);
     let reduced = shrink::reduce(
       &f.input,
       |cand| {
+        if Instant::now() > stage2_deadline {
+          return false;
+        }
         let r = exec_case(prop, f.scenario, cand, false);
         r.harness_error.is_none()
           && clause_of(&r.outcome).as_deref() == Some(clause.as_str())
